@@ -80,8 +80,15 @@ def _run_family(fam, tier, seed, binp, work):
     designs = []
     for d in fam["design"]:
         ov = d.get("overrides_" + tier) or {}
-        res = C.design_check(work, d["module"], d["cfg"], overrides=ov, timeout=d.get("timeout_" + tier, 900),
-                             extra=d.get("extra", ()))
+        try:
+            res = C.design_check(work, d["module"], d["cfg"], overrides=ov, timeout=d.get("timeout_" + tier, 900),
+                                 extra=d.get("extra", ()))
+        except C.Inconclusive as e:
+            if d["role"] == "intended":
+                raise
+            # the as-coded run only documents predicted deviations; it does not decide anything
+            res = dict(transitions=0, states=0, depth=0, violated=[], complete=False, wall_s=0, cfg=d["cfg"], module=d["module"],
+                       note="as-coded design run did not finish: " + str(e)[:120])
         res["role"] = d["role"]
         res["overrides"] = ov
         if d["role"] == "intended" and res["violated"]:
